@@ -207,7 +207,7 @@ Section Purity.
         destruct (Nat.eq_dec h1 h) as [->|Hne1]; [rewrite plive_kill_same in Hl; discriminate|].
         rewrite plive_kill_other in Hl by exact Hne1. eapply Hw. exact Hl.
       + injection E as -> <-. unfold concatenate_bins. apply wf_app; [eapply Hw; exact Hp1|eapply Hw; exact Hp2].
-    - destruct Hd as (Hne12 & k & b1 & b2 & Hp1 & Hp2 & Hi1 & Hi2). rewrite Hp1, Hp2 in Hl.
+    - destruct Hd as (k & b1 & b2 & Hp1 & Hp2 & Hi1 & Hi2). rewrite Hp1, Hp2 in Hl.
       destruct (Nat.eq_dec h1 h) as [->|Hne].
       + rewrite (plive_update_same st h _ _ Hp1) in Hl. injection Hl as -> <-.
         unfold combine_bins. destruct (nth_opt b2 i2) as [x|] eqn:E2; [|eapply Hw; exact Hp1].
